@@ -49,6 +49,16 @@ package java_identify
 //@ ensures currentMethod.Name == "" && len(currentMethod.Annotations) == 0
 //@ ensures (*currentNode).NodeName == old((*currentNode).NodeName) && (*currentNode).Package == old((*currentNode).Package)
 
+// the same for a method of an interface: listed once, and the next method starts from an empty entry (no annotation,
+// no nullable flag carried over: C18 counts both)
+//@ method JavaIdentifierListener.ExitInterfaceMethodDeclaration
+//@ modifies *currentNode
+//@ modifies currentMethod
+//@ ensures len((*currentNode).Functions) == old(len((*currentNode).Functions)) + 1 && Extends((*currentNode).Functions, old((*currentNode).Functions), 1)
+//@ ensures (*currentNode).Functions[len((*currentNode).Functions) - 1] == old(currentMethod)
+//@ ensures currentMethod.Name == "" && len(currentMethod.Annotations) == 0 && !currentMethod.IsReturnNull
+//@ ensures (*currentNode).NodeName == old((*currentNode).NodeName) && (*currentNode).Package == old((*currentNode).Package)
+
 //@ method JavaIdentifierListener.EnterConstructorDeclaration
 //@ modifies currentMethod
 //@ ensures currentMethod.Name == GetText(Child(ctx, "identifier")) && currentMethod.ReturnType == "" && currentMethod.IsConstructor
